@@ -22,6 +22,20 @@ type Scenario struct {
 	After         []pw.Step `json:"after"`
 	// Depth3 samples a third crash (index into the ops of the second recovery step, modulo).
 	Depth3 int `json:"depth3,omitempty"`
+	// RefExec: the node runs the REAL reference execution layer (apps/testapp KVExecutor), whose database
+	// dies with the process; crash points then include the executor's own durable writes.
+	RefExec bool `json:"ref_exec,omitempty"`
+}
+
+func kvify(st pw.Step) pw.Step {
+	if len(st.Seq.Txs) > 0 {
+		txs := make([][]byte, len(st.Seq.Txs))
+		for i, tx := range st.Seq.Txs {
+			txs[i] = world.KVTx(tx)
+		}
+		st.Seq.Txs = txs
+	}
+	return st
 }
 
 func genTxs(t *rapid.T, label string) [][]byte {
@@ -100,7 +114,7 @@ type outcome struct {
 // (step 0 = victim, then the After steps). crashes[i] == ops(step) means "die right after the step".
 func runOnce(sc Scenario, crashes []int, dir string) outcome {
 	out := outcome{}
-	p, err := pw.New(world.NodeOpts{ChainID: "c04-chain", InitialHeight: sc.InitialHeight, RootDir: dir})
+	p, err := pw.New(world.NodeOpts{ChainID: "c04-chain", InitialHeight: sc.InitialHeight, RootDir: dir, RefExec: sc.RefExec})
 	if err != nil {
 		out.v = world.Fail("C04/start", "NewManager failed on a fresh store: %v", err)
 		return out
@@ -119,12 +133,21 @@ func runOnce(sc Scenario, crashes []int, dir string) outcome {
 	steps := append([]pw.Step{sc.Victim}, sc.After...)
 	// hashes of blocks committed (height durable) or published, that must never change
 	pinned := map[uint64][]byte{}
+	pinnedData := map[uint64][]byte{}
 	pin := func() {
 		for h, hh := range p.HeaderHashes() {
 			pinned[h] = hh
 		}
 		for _, hd := range p.N.HB.Payloads() {
 			pinned[hd.Height()] = hd.Hash()
+		}
+		for h, dh := range p.DataHashes() {
+			pinnedData[h] = dh
+		}
+		for _, d := range p.N.DB.Payloads() {
+			if d.Metadata != nil {
+				pinnedData[d.Metadata.Height] = d.Hash()
+			}
 		}
 	}
 	checkPinned := func(when string) *world.Problem {
@@ -135,6 +158,15 @@ func runOnce(sc Scenario, crashes []int, dir string) outcome {
 			}
 			if !bytes.Equal(hdr.Hash(), hh) {
 				return &world.Problem{Sig: "committed-block-changed", Msg: fmt.Sprintf("%s: block %d was committed/published as %x and is now %x", when, h, hh, hdr.Hash())}
+			}
+		}
+		for h, dh := range pinnedData {
+			_, d, err := p.N.Store.GetBlockData(p.Ctx, h)
+			if err != nil {
+				return &world.Problem{Sig: "committed-block-lost", Msg: fmt.Sprintf("%s: the data of block %d was committed/published before the crash and is gone: %v", when, h, err)}
+			}
+			if !bytes.Equal(d.Hash(), dh) {
+				return &world.Problem{Sig: "committed-data-changed", Msg: fmt.Sprintf("%s: the data record of block %d was committed/published with hash %x and now hashes to %x", when, h, dh, d.Hash())}
 			}
 		}
 		return nil
@@ -257,6 +289,24 @@ func run(sc Scenario, dir string) world.Verdict {
 		v.Labels = append(v.Labels, "crash-before:"+c)
 	}
 	return v
+}
+
+// TestC04ReferenceExecutor: the same exhaustive crash-point enumeration of block production with the
+// repository's reference execution layer (apps/testapp KVExecutor) instead of the execution double.
+func TestC04ReferenceExecutor(t *testing.T) {
+	dir := t.TempDir()
+	world.Run(t, "C04", "producer-crash-reference-executor", world.Scale(20, 100), func(t *rapid.T) Scenario {
+		sc := genScenario(t)
+		sc.RefExec = true
+		for i := range sc.Prefix {
+			sc.Prefix[i] = kvify(sc.Prefix[i])
+		}
+		sc.Victim = kvify(sc.Victim)
+		for i := range sc.After {
+			sc.After[i] = kvify(sc.After[i])
+		}
+		return sc
+	}, func(sc Scenario) world.Verdict { return run(sc, dir) })
 }
 
 func TestC04(t *testing.T) {
